@@ -93,10 +93,10 @@ type Level int
 
 // Checking levels.
 const (
-	LvlBase Level = iota // signatures and chain only
-	LvlColl              // + collateral
-	LvlCRL               // + revocation
-	LvlCRLNoColl         // CheckRevocations without GetCollateral (always rejects)
+	LvlBase      Level = iota // signatures and chain only
+	LvlColl                   // + collateral
+	LvlCRL                    // + revocation
+	LvlCRLNoColl              // CheckRevocations without GetCollateral (always rejects)
 )
 
 func (l Level) String() string {
@@ -112,9 +112,9 @@ type World struct {
 	LeafSpec LeafSpec
 	Leaf     *Cert // set by Build unless preset
 
-	AttKey   *Key
-	Q        *RefQuote // quote fields; signatures, chain and sizes are filled by Build
-	ChainNUL bool
+	AttKey        *Key
+	Q             *RefQuote // quote fields; signatures, chain and sizes are filled by Build
+	ChainNUL      bool
 	ChainOverride []byte // use these chain bytes instead of leaf||int||root
 
 	TcbInfo TcbInfoDoc
